@@ -7,6 +7,8 @@ CLAIMED = {
 }
 CLAIMED["C02"] = ("DESIGN.md#c02", "Lean theorems for every well-formed zone table (classification unique/repeated/skipped, resolution rules, raise_iff) over the model of Timezone.convert/DateTime.create; correspondence on every gap/overlap of every tzdata zone x 10 entry points x both backends; oracle classifies wall values from the tz table",
          "Lean 4 proof over zone-table model + differential correspondence run")
+CLAIMED["C03"] = ("DESIGN.md#c03", "Lean theorems: add of fixed-length units = fromUtc(toUtc + delta) on every well-formed zone table (instant moves by exactly delta, subtract inverts); carry normalisation preserves the total; correspondence of DateTime.add/subtract/+/- timedelta against the model around every sampled transition, both backends; oracle = integer instant arithmetic on the tz table",
+         "Lean 4 proof over zone-table + add_duration model, differential correspondence run")
 NA = {}
 def main():
     props = [json.loads(l) for l in open(os.path.join(ROOT, "properties.jsonl"))]
